@@ -10,7 +10,7 @@ func init() {
 			}
 			return []*Job{
 				{Name: "convertArguments", Pkg: "ti/cmd/rbs2json", Entry: "VerifConvertArgs", N: n, Budget: 800000, Reach: []string{"converted", "called"},
-					Asserts: []string{"C25-deterministic", "C25-count", "C25-order", "C25-type", "C25-arity"}, Replay: "kernel", Stubs: fmtStubs,
+					Asserts: []string{"C25-deterministic", "C25-count", "C25-order", "C25-type", "C25-arity"}, Replay: "kernel", Cross: true, Stubs: fmtStubs,
 					Bound: sprintf("RBS function type with <=2 required, <=1 optional, optional rest, <=1 trailing positionals, <=2 required and <=2 optional keywords; iteration order of both keyword maps chosen by the solver on each of two conversions; result loaded through builtin.parseArguments and called with <=%d positionals and every subset of the keywords", n)},
 			}
 		},
